@@ -1,0 +1,198 @@
+//go:build verif
+
+package verifier
+
+// Contracts checked by /verif (gvc). This file contains comments only and is compiled only with -tags verif.
+//
+// Property C03: a node accepts an account block only if it is valid. Each check method of the verifier is specified in
+// both directions where the code allows it (result == nil <==> conjunct), so that deleting or loosening a test fails a
+// postcondition; all() is then proved to imply the conjunction from the callees' contracts alone, and the entry points
+// AccountBlock / AccountBlockTransaction are proved to imply it for the stores the chain returns for the block.
+
+// ---- validity conjuncts, written from the property statement ------------------------------------------------------
+//@ spec isSend(b *nom.AccountBlock) bool = b.BlockType == 2 || b.BlockType == 4
+//@ spec isReceive(b *nom.AccountBlock) bool = b.BlockType == 3 || b.BlockType == 5 || b.BlockType == 1
+//@ spec isEmbedded(a arr) bool = a[0] == 1
+//@ spec isContractReceiveB(b *nom.AccountBlock) bool = isReceive(b) && isEmbedded(b.Address)
+//@ spec isBatchedB(b *nom.AccountBlock) bool = isSend(b) && isEmbedded(b.Address)
+//@ spec blockObj(id int) *nom.AccountBlock = ptr("*nom.AccountBlock", id)
+//@ spec mailboxAt(ms store.Momentum, a arr) store.AccountMailbox = iface("store.AccountMailbox", ms.mailboxOf[a])
+
+// static conjuncts
+//@ spec validVersion(b *nom.AccountBlock) bool = b.Version == 1
+//@ spec validTypes(b *nom.AccountBlock) bool = (isEmbedded(b.Address) && (b.BlockType == 5 || b.BlockType == 4)) || (!isEmbedded(b.Address) && (b.BlockType == 3 || b.BlockType == 2))
+//@ spec validAmounts(b *nom.AccountBlock) bool = (isSend(b) && 0 <= val(b.Amount) && val(b.Amount) < pow2(255) && (val(b.Amount) > 0 ==> b.TokenStandard != types.ZeroTokenStandard) && b.FromBlockHash == types.ZeroHash) || (!isSend(b) && (b.Amount == nil || val(b.Amount) == 0) && b.TokenStandard == types.ZeroTokenStandard && b.ToAddress == types.ZeroAddress && b.FromBlockHash != types.ZeroHash)
+//@ spec validHeights(b *nom.AccountBlock) bool = b.Height >= 1 && (b.Height == 1 <==> b.PreviousHash == types.ZeroHash)
+//@ spec okPow(b *nom.AccountBlock) bool = b.Difficulty == 0 || (!isEmbedded(b.Address) && pow.CheckPoWNonce(b))
+
+// conjuncts relative to the ledger: as = account chain up to the block's predecessor, ms = ledger as of the acknowledged
+// momentum, fs = ledger at the node's frontier
+//@ spec okChainId(b *nom.AccountBlock, ms store.Momentum) bool = b.ChainIdentifier != 0 && b.ChainIdentifier == ms.chainId
+//@ spec okLinks(b *nom.AccountBlock, as store.Account) bool = b.Height != 1 && !isEmbedded(b.Address) && len(b.DescendantBlocks) == 0 ==> as.frontierHash == b.PreviousHash && as.frontierHeight == b.Height - 1
+//@ spec okMAStore(b *nom.AccountBlock, ms store.Momentum) bool = ms.idHash == b.MomentumAcknowledged.Hash && ms.idHeight == b.MomentumAcknowledged.Height
+//@ spec okMAContract(b *nom.AccountBlock, ms store.Momentum) bool = isContractReceiveB(b) ==> ms.confirmationHeight[b.FromBlockHash] == b.MomentumAcknowledged.Height
+//@ spec okMADescendants(b *nom.AccountBlock) bool = isContractReceiveB(b) ==> forall k int :: 0 <= k && k < len(b.DescendantBlocks) ==> b.DescendantBlocks[k].MomentumAcknowledged == b.MomentumAcknowledged
+//@ spec okMAUser(b *nom.AccountBlock, as store.Account) bool = !isBatchedB(b) && !isContractReceiveB(b) && len(b.DescendantBlocks) == 0 && b.Height > 1 ==> blockObj(as.blockAt[b.Height - 1]).MomentumAcknowledged.Height <= b.MomentumAcknowledged.Height
+//@ spec okFromExists(b *nom.AccountBlock, ms store.Momentum) bool = !isSend(b) ==> ms.blockByHash[b.FromBlockHash] != 0
+//@ spec okFromOnce(b *nom.AccountBlock, as store.Account) bool = !isSend(b) ==> !as.received[b.FromBlockHash]
+//@ spec okFromReceiver(b *nom.AccountBlock, ms store.Momentum, fs store.Momentum) bool = !isSend(b) && fs.idHeight >= ReceiverMismatchEnforcementHeight ==> blockObj(ms.blockByHash[b.FromBlockHash]).ToAddress == b.Address
+//@ spec okSequencer(b *nom.AccountBlock, as store.Account, ms store.Momentum) bool = isEmbedded(b.Address) && isReceive(b) ==> as.seqFront != mailboxAt(ms, b.Address).seqSize && blockObj(ms.blockByHash[b.FromBlockHash]).Hash == mailboxAt(ms, b.Address).seqHash[as.seqFront + 1]
+
+//@ spec descNonNil(b *nom.AccountBlock) bool = forall k int :: 0 <= k && k < len(b.DescendantBlocks) ==> b.DescendantBlocks[k] != nil
+
+// ---- the individual checks ----------------------------------------------------------------------------------------
+//@ func accountBlockVerifier.version(abv)
+//@   requires abv != nil && abv.block != nil
+//@   ensures[iff] result == nil <==> validVersion(abv.block)
+//@   modifies nothing
+
+//@ func accountBlockVerifier.chainIdentifier(abv)
+//@   requires abv != nil && abv.block != nil
+//@   ensures[iff] result == nil <==> okChainId(abv.block, abv.momentumStore)
+//@   modifies nothing
+
+//@ func accountBlockVerifier.blockType(abv)
+//@   requires abv != nil && abv.block != nil
+//@   ensures[iff] result == nil <==> validTypes(abv.block)
+//@   modifies nothing
+
+//@ func accountBlockVerifier.amounts(abv)
+//@   requires abv != nil && abv.block != nil
+//@   requires isSend(abv.block) ==> abv.block.Amount != nil
+//@   ensures[iff] result == nil <==> validAmounts(abv.block)
+//@   modifies nothing
+
+//@ func accountBlockVerifier.pow(abv)
+//@   requires abv != nil && abv.block != nil
+//@   ensures[iff] result == nil <==> okPow(abv.block)
+//@   modifies nothing
+
+//@ func accountBlockVerifier.previous(abv)
+//@   requires abv != nil && abv.block != nil
+//@   ensures[heights] result == nil ==> validHeights(abv.block)
+//@   ensures[links] result == nil ==> okLinks(abv.block, abv.accountStore)
+//@   modifies nothing
+
+// "acknowledges a momentum on the node's chain: for a user block not older than the one its predecessor acknowledged, for a
+// contract receive exactly the one that confirmed the send"
+//@ func accountBlockVerifier.momentumAcknowledged(abv)
+//@   requires abv != nil && abv.block != nil && descNonNil(abv.block)
+//@   ensures[store] result == nil ==> okMAStore(abv.block, abv.momentumStore)
+//@   ensures[contract] result == nil ==> okMAContract(abv.block, abv.momentumStore)
+//@   ensures[descendants] result == nil ==> okMADescendants(abv.block)
+//@   ensures[user] result == nil ==> okMAUser(abv.block, abv.accountStore)
+//@   modifies nothing
+//@   loop 1
+//@     invariant forall k int :: 0 <= k && k <= rangeindex ==> abv.block.DescendantBlocks[k].MomentumAcknowledged == abv.block.MomentumAcknowledged
+
+// "a receive references a confirmed, not yet received send that is addressed to the receiving account (from the protocol's
+// enforcement height on)"
+//@ func accountBlockVerifier.fromHash(abv)
+//@   requires abv != nil && abv.block != nil
+//@   ensures[exists] result == nil ==> okFromExists(abv.block, abv.momentumStore)
+//@   ensures[once] result == nil ==> okFromOnce(abv.block, abv.accountStore)
+//@   ensures[receiver] result == nil ==> okFromReceiver(abv.block, abv.momentumStore, abv.frontierStore)
+//@   modifies nothing
+
+// a contract receive is accepted only for the head of the contract's inbox
+//@ func accountBlockVerifier.sequencer(abv)
+//@   requires abv != nil && abv.block != nil
+//@   ensures[head] result == nil ==> okSequencer(abv.block, abv.accountStore, abv.momentumStore)
+//@   modifies nothing
+
+//@ func accountBlockVerifier.all(abv)
+//@   requires abv != nil && abv.block != nil && descNonNil(abv.block)
+//@   requires isSend(abv.block) ==> abv.block.Amount != nil
+//@   ensures[version] result == nil ==> validVersion(abv.block)
+//@   ensures[chainid] result == nil ==> okChainId(abv.block, abv.momentumStore)
+//@   ensures[types] result == nil ==> validTypes(abv.block)
+//@   ensures[amounts] result == nil ==> validAmounts(abv.block)
+//@   ensures[pow] result == nil ==> okPow(abv.block)
+//@   ensures[heights] result == nil ==> validHeights(abv.block)
+//@   ensures[links] result == nil ==> okLinks(abv.block, abv.accountStore)
+//@   ensures[ma-store] result == nil ==> okMAStore(abv.block, abv.momentumStore)
+//@   ensures[ma-contract] result == nil ==> okMAContract(abv.block, abv.momentumStore)
+//@   ensures[ma-descendants] result == nil ==> okMADescendants(abv.block)
+//@   ensures[ma-user] result == nil ==> okMAUser(abv.block, abv.accountStore)
+//@   ensures[from-exists] result == nil ==> okFromExists(abv.block, abv.momentumStore)
+//@   ensures[from-once] result == nil ==> okFromOnce(abv.block, abv.accountStore)
+//@   ensures[from-receiver] result == nil ==> okFromReceiver(abv.block, abv.momentumStore, abv.frontierStore)
+//@   ensures[sequencer] result == nil ==> okSequencer(abv.block, abv.accountStore, abv.momentumStore)
+//@   modifies nothing
+
+// ---- transaction-level checks ------------------------------------------------------------------------------------------
+//@ spec okHash(b *nom.AccountBlock) bool = b.Hash != types.ZeroHash && b.Hash == nom.abHashOf(b)
+//@ spec okSignature(b *nom.AccountBlock) bool = (isEmbedded(b.Address) ==> len(b.PublicKey) == 0 && len(b.Signature) == 0) && (!isEmbedded(b.Address) ==> wallet.sigValid(bytesval(b.PublicKey), bytesval(b.Hash), bytesval(b.Signature)))
+//@ spec okProducer(b *nom.AccountBlock) bool = isEmbedded(b.Address) || types.addrOfKey(bytesval(b.PublicKey)) == b.Address
+//@ spec descStatic(b *nom.AccountBlock) bool = forall k int :: 0 <= k && k < len(b.DescendantBlocks) ==> validVersion(b.DescendantBlocks[k]) && validTypes(b.DescendantBlocks[k]) && validAmounts(b.DescendantBlocks[k]) && validHeights(b.DescendantBlocks[k])
+//@ spec descWellFormed(b *nom.AccountBlock) bool = (forall k int :: 0 <= k && k < len(b.DescendantBlocks) ==> b.DescendantBlocks[k] != nil && b.DescendantBlocks[k].Amount != nil) && (forall k int, j int :: 0 <= k && k < len(b.DescendantBlocks) && 0 <= j && j < len(b.DescendantBlocks[k].DescendantBlocks) ==> b.DescendantBlocks[k].DescendantBlocks[j] != nil)
+
+//@ func accountBlockTransactionVerifier.hash(abvt)
+//@   requires abvt != nil && abvt.transaction != nil && abvt.transaction.Block != nil
+//@   ensures[iff] result == nil <==> okHash(abvt.transaction.Block)
+//@   modifies nothing
+
+//@ func accountBlockTransactionVerifier.signature(abvt)
+//@   requires abvt != nil && abvt.transaction != nil && abvt.transaction.Block != nil
+//@   ensures[sig] result == nil ==> okSignature(abvt.transaction.Block)
+//@   modifies nothing
+
+//@ func accountBlockTransactionVerifier.producer(abvt)
+//@   requires abvt != nil && abvt.transaction != nil && abvt.transaction.Block != nil
+//@   ensures[iff] result == nil <==> okProducer(abvt.transaction.Block)
+//@   modifies nothing
+
+// Every descendant of a contract receive passes the same block-level checks; other blocks carry no descendants.
+//@ func accountBlockTransactionVerifier.descendantBlocks(abvt)
+//@   requires abvt != nil && abvt.transaction != nil && abvt.transaction.Block != nil && descWellFormed(abvt.transaction.Block)
+//@   ensures[only-contract-receive] result == nil && !isContractReceiveB(abvt.transaction.Block) ==> len(abvt.transaction.Block.DescendantBlocks) == 0
+//@   ensures[each-valid] result == nil ==> descStatic(abvt.transaction.Block)
+//@   modifies nothing
+//@   loop 1
+//@     invariant forall k int :: 0 <= k && k <= rangeindex ==> validVersion(abvt.transaction.Block.DescendantBlocks[k]) && validTypes(abvt.transaction.Block.DescendantBlocks[k]) && validAmounts(abvt.transaction.Block.DescendantBlocks[k]) && validHeights(abvt.transaction.Block.DescendantBlocks[k])
+
+//@ func accountBlockTransactionVerifier.all(abvt)
+//@   requires abvt != nil && abvt.transaction != nil && abvt.transaction.Block != nil && descWellFormed(abvt.transaction.Block)
+//@   ensures[hash] result == nil ==> okHash(abvt.transaction.Block)
+//@   ensures[signature] result == nil ==> okSignature(abvt.transaction.Block)
+//@   ensures[producer] result == nil ==> okProducer(abvt.transaction.Block)
+//@   ensures[descendants] result == nil && !isContractReceiveB(abvt.transaction.Block) ==> len(abvt.transaction.Block.DescendantBlocks) == 0
+//@   ensures[descendants-valid] result == nil ==> descStatic(abvt.transaction.Block)
+//@   modifies nothing
+
+// ---- entry points: the stores are the ones the chain holds for the block's predecessor and acknowledged momentum ----------
+//@ spec msOf(av *accountVerifier, b *nom.AccountBlock) store.Momentum = iface("store.Momentum", av.chain.momentumStoreAt[b.MomentumAcknowledged.Hash][b.MomentumAcknowledged.Height])
+//@ spec fsOf(av *accountVerifier) store.Momentum = iface("store.Momentum", av.chain.frontierStore)
+
+//@ func accountVerifier.getContext(av, block) -> (as, ms, err)
+//@   requires av != nil && block != nil
+//@   ensures[heights] err == nil ==> validHeights(block)
+//@   ensures[ma] err == nil ==> ms != nil && ms == msOf(av, block) && block.MomentumAcknowledged != types.ZeroHashHeight
+//@   ensures[account] err == nil ==> as != nil && as.address == block.Address
+//@   ensures[account-at-previous] err == nil && len(block.DescendantBlocks) == 0 ==> as.frontierHash == block.PreviousHash && as.frontierHeight == block.Height - 1
+//@   modifies nothing
+
+//@ func accountVerifier.AccountBlock(av, block)
+//@   requires av != nil && block != nil && descNonNil(block)
+//@   requires isSend(block) ==> block.Amount != nil
+//@   ensures[no-standalone-contract-send] result == nil ==> block.BlockType != 4
+//@   ensures[version] result == nil ==> validVersion(block)
+//@   ensures[types] result == nil ==> validTypes(block)
+//@   ensures[amounts] result == nil ==> validAmounts(block)
+//@   ensures[pow] result == nil ==> okPow(block)
+//@   ensures[heights] result == nil ==> validHeights(block)
+//@   ensures[chainid] result == nil ==> okChainId(block, msOf(av, block))
+//@   ensures[ma-contract] result == nil ==> okMAContract(block, msOf(av, block))
+//@   ensures[ma-descendants] result == nil ==> okMADescendants(block)
+//@   ensures[from-exists] result == nil ==> okFromExists(block, msOf(av, block))
+//@   ensures[from-receiver] result == nil ==> okFromReceiver(block, msOf(av, block), fsOf(av))
+//@   modifies nothing
+
+//@ func accountVerifier.AccountBlockTransaction(av, transaction)
+//@   requires av != nil && transaction != nil && transaction.Block != nil && descWellFormed(transaction.Block)
+//@   ensures[no-standalone-contract-send] result == nil ==> transaction.Block.BlockType != 4
+//@   ensures[hash] result == nil ==> okHash(transaction.Block)
+//@   ensures[signature] result == nil ==> okSignature(transaction.Block)
+//@   ensures[producer] result == nil ==> okProducer(transaction.Block)
+//@   ensures[descendants] result == nil && !isContractReceiveB(transaction.Block) ==> len(transaction.Block.DescendantBlocks) == 0
+//@   modifies nothing
